@@ -48,6 +48,7 @@ def instances(tier):
          "caps": {}, "scaled": {"rep": 5}},
         {"name": "index_rpt", "depth": (5, 9), "keys": ["a", "b", "c", "d"], "kinds": ["d", "u"],
          "kbd": "(defsrc a b c d)\n(deflayer l0 (tap-dance 2 ()) (tap-dance-eager 2 ()) (multi rpt-any) (fork rpt-any x (lsft)))\n",
+         "alt_kbd": ["(defsrc a b c d)\n(deflayer l0 (tap-dance 2 (x)) (tap-dance-eager 2 (x)) (multi rpt-any) (fork rpt-any x (lsft)))\n"],
          "caps": {}},
         {"name": "wdelay", "depth": (6, 8), "keys": ["a", "b", "c"], "qkeys": ["a", "c"], "kinds": ["d", "u"],
          "kbd": "(defcfg rapid-event-delay 2)\n(defsrc a b c)\n(deflayer l0 (tap-hold 0 2 x y) (tap-hold 0 2 z w) (one-shot 2 lsft))\n",
@@ -75,7 +76,21 @@ def check_arb(inst, wd, workers, timeout, depth):
     probes printed so far are shortest witnesses of the levels completed (reported as complete = False)."""
     t0 = time.time()
     codes = [cfgdesc.code(k) for k in inst["keys"]]
-    dump, kbd = dump_cfg(inst["kbd"], codes, wd, "c02cap_" + inst["name"])
+    # an instance probes a configuration the parser accepts today; once the parser refuses it (the repair of several
+    # findings) the instance continues with its next configuration, or is skipped
+    dump = None
+    for kbd_text in [inst["kbd"]] + inst.get("alt_kbd", []):
+        try:
+            dump, kbd = dump_cfg(kbd_text, codes, wd, "c02cap_" + inst["name"])
+            inst["kbd"] = kbd_text
+            break
+        except ToolError as e:
+            if "parse error" not in str(e):
+                raise
+    if dump is None:
+        return {"name": inst["name"], "states": 0, "generated": 0, "depth": 0, "depth_bound": depth, "complete": True,
+                "skipped": "the parser rejects the instance's configuration", "panic_states": 0, "sites": {},
+                "wall_s": round(time.time() - t0, 1), "tlc_wall_s": 0, "caps": {}, "kbd": inst["kbd"]}
     caps = dict(CAPS)
     caps.update(inst.get("caps", {}))
     consts, c = gen_constants(dump, None, caps, track_hist=caps.get("hist", 0) > 0)
@@ -140,6 +155,8 @@ def capacity_submodel(tier, seed, wd, acc, run_all, mkjob, notes):
         left = budget - (time.time() - t0)
         r = check_arb(i, wd, 8, max(20, min(60 if tier == "quick" else 420, int(left))), i["depth"][0 if tier == "quick" else 1])
         results.append(r)
+        if r.get("skipped"):
+            notes.append("capacity sub-model: instance %s skipped: %s" % (i["name"], r["skipped"]))
         if not r["complete"]:
             notes.append("capacity sub-model: TLC timed out on instance %s at depth bound %d after %d states (machine load?); "
                          "the witnesses of the completed levels are used" % (i["name"], r["depth_bound"], r["states"]))
@@ -244,9 +261,10 @@ def entry_probe(eid, v):
 
 
 def _nest(d):
-    """a boolean expression with d nested operator levels"""
+    """a boolean expression whose innermost item is at depth d as the parser counts it (the items of the case's own
+    list are at depth 1, every and/or/not list adds one)"""
     e = "a"
-    for i in range(d):
+    for i in range(max(0, d - 1)):
         e = "(%s %s b)" % ("and" if i % 2 == 0 else "or", e)
     return e
 
